@@ -175,9 +175,13 @@ def modifier_table(pred=None):
 def per_key(keys, pred=None, maxheld=2):
     """One small layout per key name the tool knows, with the key as an output of a no-repeat mapping, behind a modifier, as a trigger and as
     a repeat key (and, for the absorbing families, next to an absorbing chord): tables or bit tricks indexed by key code (which keys are
-    modifiers, which are action keys) show only for particular codes among several hundred."""
+    modifiers, which are action keys) show only for particular codes among several hundred. Where another key of the tool has a code that
+    differs by a multiple of 128 (codes run to 700: a byte or a 7-bit index wraps), that key is in the alphabet as well, as the modifier
+    of a chord of its own: holding the one must not count as holding the other.
+    keys: [{name, code}]"""
     jobs = []
-    for K in keys:
+    for kk in keys:
+        K, code = kk["name"], kk["code"]
         if K in ("A", "B", "C", "D", "E", "LEFTSHIFT"):
             continue
         lay = [M(["A"], [K], D), M(["B"], ["LEFTSHIFT", K]), M(["C", K], ["D"], S([K]))]
@@ -185,7 +189,12 @@ def per_key(keys, pred=None, maxheld=2):
             lay = [M(["LEFTSHIFT", "A"], [K], N, ["LEFTSHIFT"]), M(["LEFTSHIFT", K], ["D"])]
             if not pred(lay):
                 continue
-        jobs.append({"id": "key-%s" % K, "layout": lay, "keys": ["A", "B", "C", K, "LEFTSHIFT"], "maxheld": maxheld})
+        alph = ["A", "B", "C", K, "LEFTSHIFT"]
+        partner = next((p["name"] for p in keys if p["name"] != K and p["name"] not in alph and (p["code"] - code) % 128 == 0), None)
+        if partner:
+            lay = lay + [M([partner, "B"], ["E"])]
+            alph = alph + [partner]
+        jobs.append({"id": "key-%s" % K, "layout": lay, "keys": alph, "maxheld": maxheld})
     return jobs
 
 
